@@ -249,3 +249,45 @@ Example ex_callbacks_never_influence :
   map is_permit (run_history false st ops) = [false; true; false] /\
   filter not_callback_op ops <> ops.
 Proof. split; [vm_compute; reflexivity | discriminate]. Qed.
+
+(* ---------------------------------------------------------------------- *)
+(* fractional count thresholds off the dyadic grid: the share of the colony *)
+
+Definition ballot_pb (np nb : nat) : list vote := repeat (P 1 1) np ++ repeat (B 1 1) nb.
+(* the double 0.29 *)
+Definition d029 : Q := 5224175567749775 # 18014398509481984.
+
+(* EmergencyQuorum(7, emergency_threshold=0.29): 0.29 * 7 = 2.03, so 2 of 7
+   (28.57 %) is below the share -> BLOCK, 3 of 7 -> PERMIT; both sides of
+   c06_emergency_is_share_of_colony take both truth values.  Likewise
+   THRESHOLD 0.58 of 7 (4.06: 4 -> BLOCK, 5 -> PERMIT) and 0.334 of 3 (1.002:
+   1 -> BLOCK, 2 -> PERMIT). *)
+Example ex_share_boundaries :
+  0 < d029 /\ d029 < 1 /\
+  map (fun np => is_permit (aggregate false (emergency_cfg d029) (ballot_pb np (7 - np)))) [0; 1; 2; 3; 4]%nat
+    = [false; false; false; true; true] /\
+  ~ d029 <= inject_Z 2 / inject_Z 7 /\ d029 <= inject_Z 3 / inject_Z 7 /\
+  map (fun np => is_permit (aggregate false (mkConfig ThresholdCount (Some (58 # 100)) 1) (ballot_pb np (7 - np))))
+      [3; 4; 5; 6]%nat = [false; false; true; true] /\
+  map (fun np => is_permit (aggregate false (mkConfig ThresholdCount (Some (334 # 1000)) 1) (ballot_pb np (3 - np))))
+      [0; 1; 2; 3]%nat = [false; false; true; true].
+Proof.
+  unfold d029. repeat split; try (vm_compute; reflexivity); try lra.
+  - intro H. vm_compute in H. apply H. reflexivity.
+  - vm_compute. discriminate.
+Qed.
+
+(* the quota of c06_fraction_quota_is_least_cover for these shares *)
+Example ex_share_quota :
+  map (fun tn => count_needed false (Some (fst tn)) (snd tn))
+      [(d029, 7); (58 # 100, 7); (334 # 1000, 3); (28 # 100, 25); (1 # 100, 7); (99 # 100, 7); (1 # 2, 4)]%Z
+  = [3; 5; 2; 7; 1; 7; 2]%Z.
+Proof. vm_compute. reflexivity. Qed.
+
+(* a colony that grows from 6 to 7 under EmergencyQuorum(0.29): 2 permits cover
+   the share of 6 (1.74) but not of 7 (2.03) *)
+Example ex_history_share_of_current_colony :
+  let two_permit := fun i => match i with O | S O => Acted APermit None | _ => Acted ABlock None end in
+  let st := init_state (emergency_cfg d029) true [(1, 1); (1, 1); (1, 1); (1, 1); (1, 1); (1, 1)] in
+  map is_permit (run_history false st [OVote two_permit; OAdd 10 1; OVote two_permit]) = [true; false].
+Proof. vm_compute. reflexivity. Qed.
